@@ -518,7 +518,9 @@ def convert_hook_trace(raw, out_path):
 
 
 # ---------------------------------------------------------------------------------------------------------
-# binding self-test: a recorded trace is accepted, three corruptions of it are rejected
+# binding self-test: recordings of the real code are taken AS THEY ARE (whatever the code did); one field of one
+# recorded line is corrupted (or one event dropped) and TLC must reject exactly there, while the uncorrupted
+# recording is not rejected there. It runs after the main judgement and never replaces it.
 
 SELFTEST_SCRIPT = {
     "id": "selftest", "cfg": {"fcpu": [2, 1], "fmem": [1, 1], "fsto": [3, 1], "ports": 2}, "adopt": [],
@@ -532,69 +534,120 @@ SELFTEST_SCRIPT = {
     ]}
 
 
-def binding_selftest(vh, workdir):
-    sf = os.path.join(workdir, "selftest-script.ndjson")
-    tf = os.path.join(workdir, "selftest-trace.ndjson")
-    open(sf, "w").write(json.dumps(SELFTEST_SCRIPT) + "\n")
-    rc, out = vlib.run([vh, "inventory", "run", "-scripts", sf, "-out", tf], timeout=120)
-    if rc != 0:
-        raise vlib.Inconclusive("self-test replay failed: " + out[-2000:])
-    good = read_trace(tf)
-    if [e["ev"] for e in good] != ["reset", "Refresh", "Reserve", "Reserve", "Status", "Unreserve", "Status"] or \
-            not (good[2]["reply"]["ok"] and good[3]["reply"]["ok"] and good[5]["reply"]["ok"]):
-        raise vlib.Inconclusive("self-test script did not run as designed: %s" % [e.get("reply") for e in good])
+def sample_recordings(trace_files, per_file=150):
+    """Recorded scripts (lists of lines) from the main run: the self-test script's recording first, then the first
+    few of every trace file."""
+    first, rest = [], []
+    for f in trace_files:
+        cur, n, keep = None, 0, False
+        for raw in open(f):
+            if '"reset"' in raw and '"ev":"reset"' in raw.replace(" ", ""):
+                if cur and keep:
+                    (first if cur[0].get("script") == "selftest" else rest).append(cur)
+                n += 1
+                special = '"selftest"' in raw
+                keep = special or n <= per_file
+                cur = [json.loads(raw)] if keep else None
+            elif keep and cur is not None:
+                cur.append(json.loads(raw))
+        if cur and keep:
+            (first if cur[0].get("script") == "selftest" else rest).append(cur)
+    return first + rest
 
-    def variant(name, fn):
-        t = json.loads(json.dumps(good))
-        t = fn(t)
-        t[0]["script"] = name
-        return t
 
-    def corrupt_status(t):          # one reported amount changed
-        t[4]["reply"]["pending"][0]["cpu"] += 1
-        return t
+def _corruption_sites(rec):
+    """(kind, wanted predicate, index of the line that must be rejected, corrupted recording) for one recording."""
+    out = []
+    for i, e in enumerate(rec):
+        ev = e.get("ev")
+        rep = e.get("reply") or {}
+        if ev == "Status":
+            both = (rep.get("pending") or []) + (rep.get("active") or [])
+            if both:
+                t = json.loads(json.dumps(rec[:i + 1]))
+                lst = t[i]["reply"]["pending"] if t[i]["reply"]["pending"] else t[i]["reply"]["active"]
+                lst[0]["cpu"] += 1
+                out.append(("reported-amount-changed", "StatusMatchesGranted", i, t))
+            resv = e["post"]["resv"]
+            if resv and resv[0]["units"]:
+                t = json.loads(json.dumps(rec[:i + 1]))
+                t[i]["post"]["resv"][0]["units"][0]["mem"] += 1
+                out.append(("reservation-changed-across-status", "StatusIsReadOnly", i, t))
+            rel = [j for j in range(1, i) if rec[j].get("ev") == "Unreserve" and (rec[j].get("reply") or {}).get("ok")]
+            if rel:
+                j = rel[-1]
+                t = json.loads(json.dumps(rec[:j] + rec[j + 1:i + 1]))
+                out.append(("release-event-dropped", "StatusMatchesGranted", i - 1, t))
+        elif ev == "Reserve" and rep.get("ok") and sum(u["count"] for u in e["units"]) > 0:
+            t = json.loads(json.dumps(rec[:i + 1]))
+            for x in t[:i]:
+                if x.get("ev") == "Refresh" and x.get("ok"):
+                    x["inv"] = []
+            out.append(("reported-inventory-withheld", "GrantOnlyIfPackable", i, t))
+        elif ev == "Unreserve" and rep.get("ok") and i >= 1:
+            t = json.loads(json.dumps(rec[:i + 1]))
+            t[i]["post"]["resv"] = json.loads(json.dumps(rec[i - 1]["post"]["resv"]))
+            out.append(("release-not-applied", "UnreserveRemovesExactlyOne", i, t))
+    return out
 
-    def drop_release(t):            # the release event removed: the next Status reports fewer than granted-minus-released
-        return t[:5] + t[6:]
 
-    def shrink_inventory(t):        # the reported capacity was smaller than what the grants needed
-        t[1]["inv"] = [{"cpu": 1, "mem": 1, "sto": 1}]
-        return t
+SELFTEST_KINDS = ["reported-amount-changed", "reservation-changed-across-status", "release-event-dropped",
+                  "reported-inventory-withheld", "release-not-applied"]
 
-    def corrupt_snapshot(t):        # the loop's reservation list changed across Status
-        t[4]["post"]["resv"][0]["units"][0]["mem"] += 1
-        return t
 
-    variants = [("clean", lambda t: t, None),
-                ("corrupt-status-amount", corrupt_status, "StatusMatchesGranted"),
-                ("drop-unreserve-event", drop_release, "StatusMatchesGranted"),
-                ("shrink-reported-inventory", shrink_inventory, "GrantOnlyIfPackable"),
-                ("corrupt-reservation-snapshot", corrupt_snapshot, "StatusIsReadOnly")]
+def binding_selftest(recordings, workdir, per_kind=3):
+    """Returns a result dict; result["ok"] is False only if a corrupted recording was NOT rejected where it must be.
+    Raises Inconclusive only when TLC itself fails."""
+    sites = {k: [] for k in SELFTEST_KINDS}
+    for rec in recordings:
+        if all(len(v) >= per_kind for v in sites.values()):
+            break
+        for kind, want, idx, bad in _corruption_sites(rec):
+            if len(sites[kind]) < per_kind:
+                sites[kind].append((want, idx, rec[:max(idx, 0) + 2], bad))
     cf = os.path.join(workdir, "selftest-all.ndjson")
+    where = {}          # (script name, tree node) -> bookkeeping
+    plan = []
+    line_no = 0
     with open(cf, "w") as fh:
-        for name, fn, _ in variants:
-            for e in variant(name, fn):
-                fh.write(json.dumps(e) + "\n")
+        for kind in SELFTEST_KINDS:
+            for n, (want, idx, clean, bad) in enumerate(sites[kind]):
+                for flavour, rec in (("clean", clean), ("bad", bad)):
+                    name = "%s/%d/%s" % (kind, n, flavour)
+                    rec = json.loads(json.dumps(rec))
+                    rec[0]["script"] = name
+                    for e in rec:
+                        fh.write(json.dumps(e) + "\n")
+                    # merge=False: one tree node per written line, node = line number + 1 (record 1 is the root)
+                    where[name] = line_no + idx + 2
+                    line_no += len(rec)
+                plan.append((kind, n, want))
+    result = {"sites": {k: len(v) for k, v in sites.items()}}
+    if not plan:
+        result["ok"] = True
+        result["note"] = "no recorded line to corrupt (nothing was granted, reported or released in the sampled recordings)"
+        return result
     res = judge([cf], workdir, "selftest", 300, merge=False)
-    result = {}
+    hit = {(v["script"], v["node"], v["what"]) for v in res["violations"]}
     okall = True
-    clean_bad = sorted({v["what"] for v in res["violations"] if v["script"] == "clean"})
-    for name, _, want in variants:
-        got = sorted({v["what"] for v in res["violations"] if v["script"] == name})
-        dr = sum(1 for d in res["drift"] if d["script"] == name)
-        if want is None:
-            ok = not got and dr == 0
-            result[name] = "accepted" if ok else "not clean on this tree: violations %s drift=%d (judged with the main run)" % (got, dr)
-            ok = True       # a recorded trace that violates is a finding of the main run, not a failure of the binding
-        elif clean_bad:
-            ok = True
-            result[name] = "skipped: the uncorrupted recording already violates %s" % clean_bad
-        else:
-            ok = want in got
-            result[name] = ("rejected: %s" % ",".join(got)) if ok else "NOT REJECTED (violations %s, drift %d)" % (got, dr)
-        okall = okall and ok
+    for kind in SELFTEST_KINDS:
+        if not sites[kind]:
+            result[kind] = "no recorded line of that kind in the sampled recordings"
+            continue
+        verdicts = []
+        for n, (want, idx, _, _) in enumerate(sites[kind]):
+            cn, bn = "%s/%d/clean" % (kind, n), "%s/%d/bad" % (kind, n)
+            if kind == "release-event-dropped":
+                clean_hit = (cn, where[cn] + 1, want) in hit      # the same Status line sits one node later in the clean copy
+            else:
+                clean_hit = (cn, where[cn], want) in hit
+            bad_hit = (bn, where[bn], want) in hit
+            verdicts.append("already-violating" if clean_hit else ("rejected" if bad_hit else "NOT-REJECTED"))
+        if "NOT-REJECTED" in verdicts:
+            okall = False
+        result[kind] = "%s by %s: %s" % ("corruption rejected" if "rejected" in verdicts else "undecided", sites[kind][0][0], ",".join(verdicts))
     result["ok"] = okall
-    return result, tf
+    return result
 
 
 # ---------------------------------------------------------------------------------------------------------
@@ -697,11 +750,6 @@ def run(pid, tier, seed, replay_path):
             print("OK property=%s replay reproduced no violation" % pid, flush=True)
         return 1 if bad else 0
 
-    selftest, selftest_trace = binding_selftest(vh, work)
-    vlib.log("[C12] binding self-test: %s" % selftest)
-    if not selftest["ok"]:
-        raise vlib.Inconclusive("binding self-test failed: %s" % selftest)
-
     commit = commit_conformance(vh, work, 20000 if tier == "thorough" else 2000)
     vlib.log("[C12] commit rounding: %s" % commit)
 
@@ -726,12 +774,14 @@ def run(pid, tier, seed, replay_path):
     genmod = constants_module("MC_gen", gen)
     if tier == "quick":
         plan = [("small-d5", "MC_Inventory", cfg_text("S", 3, 5), {}, None),
+                ("levels-d4", "MC_Inventory", cfg_text("L", 3, 4), {}, None),
                 ("seed%d-d3" % seed, "MC_gen", cfg_text("G", 3, 3), {"MC_gen.tla": genmod}, None),
                 ("seed%d-sim" % seed, "MC_gen", cfg_text("G", 4, 12), {"MC_gen.tla": genmod},
                  dict(num=30, depth=13, seed=seed))]
     else:
         plan = [("small-d7", "MC_Inventory", cfg_text("S", 3, 7), {}, None),
                 ("big-d4", "MC_Inventory", cfg_text("B", 4, 4), {}, None),
+                ("levels-d5", "MC_Inventory", cfg_text("L", 3, 5), {}, None),
                 ("seed%d-d4" % seed, "MC_gen", cfg_text("G", 3, 4), {"MC_gen.tla": genmod}, None)]
         for k in range(4):
             plan.append(("seed%d-sim%d" % (seed, k), "MC_gen", cfg_text("G", 4, 16), {"MC_gen.tla": genmod},
@@ -740,15 +790,17 @@ def run(pid, tier, seed, replay_path):
                          dict(num=40, depth=17, seed=seed * 100 + 50 + k)))
     for label, module, cfg, files, sim in plan:
         r, scripts = j1(label, module, cfg, files, workers=(1 if sim else "auto"),
-                        timeout=(1500 if tier == "thorough" else 170), simulate=sim)
+                        timeout=(1500 if tier == "thorough" else 400), simulate=sim)
         if not scripts:
             raise vlib.Inconclusive("J1 %s exported no scripts" % label)
         add(label, r, scripts, exhaustive=(sim is None))
 
+    all_scripts.append(dict(SELFTEST_SCRIPT))
+
     # J2
     nproc = min(ncpu, 16)
     t1 = time.time()
-    trace_files = replay(vh, all_scripts, work, nproc, "mc", 1500 if tier == "thorough" else 150,
+    trace_files = replay(vh, all_scripts, work, nproc, "mc", 1500 if tier == "thorough" else 600,
                          nchunks=(4 * nproc if tier == "thorough" else nproc))
     vlib.log("[C12] J2 replayed %d scripts on the real service in %.1fs" % (len(all_scripts), time.time() - t1))
     free_files = []
@@ -771,7 +823,7 @@ def run(pid, tier, seed, replay_path):
 
     # J3
     t1 = time.time()
-    res = judge(trace_files + free_files + [selftest_trace] + extra, work, "all", 1700 if tier == "thorough" else 170,
+    res = judge(trace_files + free_files + extra, work, "all", 1700 if tier == "thorough" else 600,
                 par=(2 if tier == "thorough" else 1))
     vlib.log("[C12] J3 judged %d recorded lines as %d distinct recorded steps (%d prefix trees) in %.1fs" % (
         res["lines"], res["nodes"], res["trees"], time.time() - t1))
@@ -779,12 +831,23 @@ def run(pid, tier, seed, replay_path):
     drift = len(res["drift"]) + commit["mismatches"]
     for d in res["drift"][:5]:
         vlib.log("DRIFT node %d script %s: %s %s" % (d["node"], d["script"], d["ev"], json.dumps(d.get("detail"))[:600]))
+    # binding self-test, on recordings of this very run; it can never pre-empt the verdict above
+    try:
+        selftest = binding_selftest(sample_recordings(trace_files), work)
+    except vlib.Inconclusive as e:
+        if violations:
+            selftest = {"ok": False, "tool_failure": str(e)[:300]}
+        else:
+            raise
+    vlib.log("[C12] binding self-test: %s" % selftest)
+    if not selftest["ok"] and not violations:
+        raise vlib.Inconclusive("binding self-test: a corrupted recording was not rejected: %s" % selftest)
     n_scripts, n_steps, classes, nontriv = account(trace_files)
     f_scripts, f_steps, f_classes, f_nontriv = account(free_files) if free_files else (0, 0, {}, 0)
     needed = ["Reserve.ok", "Reserve.refused", "Unreserve.ok", "Unreserve.refused", "Status.nonempty", "Lookup.ok",
               "Refresh.ok", "Refresh.err", "CD.deployed.changed", "CD.pending.changed", "Timer"]
     missing = [c for c in needed if not classes.get(c)]
-    if missing:
+    if missing and not violations:
         raise vlib.Inconclusive("vacuous run: action/outcome classes never exercised on the real code: %s" % missing)
     samples = [all_scripts[i] for i in sorted({0, len(all_scripts) // 2, len(all_scripts) - 1})]
     cov = {
